@@ -7,7 +7,7 @@ pub mod take;
 
 use super::{DeError, Error};
 
-use integer_encoding::{VarInt, VarIntReader};
+use integer_encoding::VarInt;
 
 /// Abstracts reading from slices or any other `impl BufRead` behind the same
 /// interface
@@ -180,7 +180,31 @@ impl<R: std::io::BufRead> Read for ReaderRead<R> {
 		// more general `read_varint` method that reads byte by byte (that's slightly
 		// sub-optimal but also will trigger extremely rarely).
 		match I::decode_var(self.fill_buf().map_err(DeError::io)?) {
-			None => <Self as VarIntReader>::read_varint(self).map_err(DeError::io),
+			None => {
+				// Read byte by byte up to the longest varint (10 bytes) and decode that
+				// with the same function as above, so that the encodings we accept do
+				// not depend on where the buffer refills happen to fall.
+				let mut buf = [0u8; 10];
+				let mut len = 0;
+				loop {
+					let mut byte = [0u8; 1];
+					if self.reader.read(&mut byte).map_err(DeError::io)? == 0 {
+						return Err(DeError::io(std::io::Error::new(
+							std::io::ErrorKind::UnexpectedEof,
+							"Reached EOF",
+						)));
+					}
+					buf[len] = byte[0];
+					len += 1;
+					if byte[0] & 0x80 == 0 || len == buf.len() {
+						break;
+					}
+				}
+				match I::decode_var(&buf[..len]) {
+					Some((val, _)) => Ok(val),
+					None => Err(DeError::new("Invalid varint in stream")),
+				}
+			}
 			Some((val, read)) => {
 				self.consume(read);
 				Ok(val)
